@@ -190,6 +190,53 @@ class Body:
                 stack.extend(self.succ(b))
         return seen
 
+    def threaded_reach(self, start, removed=frozenset()):
+        """Blocks reachable from `start` (inclusive) when boolean/integer temporaries assigned a constant on the
+        straight-line prefix of the path decide the switches that test them (the lowering of `matches!` and of
+        `a || b` sets a flag in one block and tests it in the next)."""
+        known = {}
+        seen = set()
+        b = start
+        while True:
+            if b in seen or b in removed:
+                return seen
+            seen.add(b)
+            if b < 0:
+                return seen
+            blk = self.blocks[b]
+            for s in blk.stmts:
+                if is_local(s["lhs"]):
+                    rv = s["rv"]
+                    v = const_int(rv["a"]) if rv.get("k") == "use" else None
+                    if v is None and rv.get("k") == "use":
+                        q = op_place(rv["a"])
+                        if q is not None and is_local(q) and q["l"] in known:
+                            v = known[q["l"]]
+                    if v is not None:
+                        known[s["lhs"]["l"]] = v
+                    else:
+                        known.pop(s["lhs"]["l"], None)
+            t = blk.term
+            if t["k"] == "call" and is_local(t["dest"]):
+                known.pop(t["dest"]["l"], None)
+            ss = self.succ(b)
+            if t["k"] == "switch":
+                q = op_place(t["discr"])
+                if q is not None and is_local(q) and q["l"] in known:
+                    v = known[q["l"]]
+                    tgt = t["otherwise"]
+                    for a in t["arms"]:
+                        if a[0] == v:
+                            tgt = a[1]
+                    b = tgt
+                    continue
+            if len(ss) == 1:
+                b = ss[0]
+                continue
+            for x in ss:
+                seen |= self.reachable_from(x, removed=removed, include_start=True)
+            return seen
+
     def reaches(self, a, b, removed=frozenset()):
         return b in self.reachable_from(a, removed)
 
